@@ -300,7 +300,7 @@ pub fn gen_hist(o: &Opts, r: &mut Rng, k: u64, tier: &str) -> Vec<String> {
     let mut seq = 0u64;
     let mut restarts_left = if o.restarts > 0 { r.range(1, o.restarts) } else { 0 };
     let mut written_since_start = false;
-    let fault_kinds = ["open=0", "rename=0", "write=0", "remove=0", "gz=0", "remove=1"];
+    let fault_kinds = ["open=0", "rename=0", "write=0", "remove=0", "gz=0", "remove=1", "gzcopy=0", "gzfinish=0", "gzcopy=1"];
     for i in 0..nops {
         let tick = |clock: &mut Clock, r: &mut Rng| if frozen { clock.now() } else { if distinct { clock.epoch += 1; } clock.tick(r) };
         let roll = r.below(24);
